@@ -67,7 +67,9 @@ def run(workdir: Path, module: str, cfg_text: str | None = None, cfg: str | None
     if cfg is None:
         cfg = f"{module}.cfg"
     meta = workdir / "meta"
-    cmd = ["java", "-XX:+UseParallelGC", f"-Xmx{heap}", "-Xss64m"]
+    jtmp = workdir / "jtmp"                      # TLC unpacks its module jar into java.io.tmpdir on every start
+    jtmp.mkdir(exist_ok=True)
+    cmd = ["java", "-XX:+UseParallelGC", f"-Xmx{heap}", "-Xss64m", f"-Djava.io.tmpdir={jtmp}"]
     if dfs_queue:
         cmd.append("-Dtlc2.tool.queue.IStateQueue=StateDeque")
     cmd += list(java_opts or [])
